@@ -219,11 +219,19 @@ class XMLTransformerPipeline(BaseTransformerPipeline):
 
             new_lines = output_file.readlines()
             # TODO there's a failure potential here for very large files
-            original_lines = (
-                file_context.file_path.read_bytes()
-                .decode("utf-8")
-                .splitlines(keepends=True)
-            )
+            try:
+                original_lines = (
+                    file_context.file_path.read_bytes()
+                    .decode("utf-8")
+                    .splitlines(keepends=True)
+                )
+            except Exception:
+                # e.g. a well-formed document in a non-UTF-8 encoding
+                file_context.add_failure(
+                    file_path, reason := "Failed to read XML file as UTF-8"
+                )
+                logger.exception("%s %s", reason, file_path)
+                return None
             if not (
                 diff := create_diff(
                     original_lines,
